@@ -450,6 +450,13 @@ def matrix_definitions() -> list[dict]:
           _complete({"name": "LogAppendTimeMsSum", "t": "int64", "tk": "prim"}),
           _complete({"name": "Emoji", "t": "string", "tk": "prim", "hasdefault": True,
                      "default": {"blob": list("a\U0001F600\u00e9\"q'\\z".encode())}, "spelling": "a\U0001F600\u00e9\"q'\\z"}),
+          # integer defaults that a double cannot hold; the largest ones in hexadecimal
+          _complete({"name": "BigDefault", "t": "int64", "tk": "prim", "hasdefault": True,
+                     "default": aint(9007199254740993), "spelling": "9007199254740993"}),
+          _complete({"name": "BigNegDefault", "t": "int64", "tk": "prim", "hasdefault": True,
+                     "default": aint(-9007199254740993), "spelling": "-9007199254740993"}),
+          _complete({"name": "MaxDefault", "t": "int64", "tk": "prim", "hasdefault": True,
+                     "default": aint(2**63 - 1), "spelling": "0x7fffffffffffffff"}),
           _complete({"name": "BrokerId", "t": "int32", "tk": "prim", "etype": "brokerId", "hasdefault": True,
                      "default": aint(-1), "spelling": "-1"}),
           _complete({"name": "Topics", "t": "string", "tk": "parr", "etype": "topicName"})]
@@ -486,6 +493,16 @@ def matrix_definitions() -> list[dict]:
     out.append({"id": "mxu", "kind": "response", "name": "MatrixStructResponse", "apiKey": 7, "valid": [0, 11],
                 "flex": [10, OPEN], "fields": fs2 + [_complete({"name": "LateField", "t": "int16", "tk": "prim",
                                                                  "versions": [3, 10]})], "common": common2})
+    # "Request" / "Response" as inner words of a message name (package and module names derive from it)
+    simple = [_complete({"name": "Value", "t": "int32", "tk": "prim"})]
+    out.append({"id": "mxn1", "kind": "request", "name": "ForwardRequestStatusRequest", "apiKey": 15, "valid": [0, 1],
+                "flex": [1, OPEN], "fields": simple, "common": []})
+    out.append({"id": "mxn2", "kind": "response", "name": "ForwardRequestStatusResponse", "apiKey": 15, "valid": [0, 1],
+                "flex": [1, OPEN], "fields": simple, "common": []})
+    out.append({"id": "mxn3", "kind": "request", "name": "ForwardStatusRequest", "apiKey": 16, "valid": [0, 0],
+                "flex": NONE, "fields": simple, "common": []})
+    out.append({"id": "mxn4", "kind": "response", "name": "ResponseCodeLookupResponse", "apiKey": 17, "valid": [0, 0],
+                "flex": NONE, "fields": simple, "common": []})
     return out
 
 
